@@ -795,8 +795,9 @@ def rule_split(ctx):
     f = ctx.func("typhon/utils/common.py", "split_units")
     wrong = None
     same = lambda a, b: (a == b or (a != a and b != b))          # nan
+    helpers = {q: fn for q, fn in f.module.funcs.items() if fn.cls is None and q != "split_units"}      # private helpers a restructured version may call
     for sv in SPLIT_TABLE:
-        got = call(f, sv)
+        got = call(f, sv, funcs=helpers)
         want = _split_reference(sv)
         if not (isinstance(got, tuple) and len(got) == 2 and same(got[0], want[0]) and type(got[0]) in (int, float) and got[1] == want[1]):
             wrong = {"split_units(%r)" % sv: repr(got), "expected": repr(want)}
